@@ -138,3 +138,28 @@ package tchannel
 //@   ensures ChecksumType(tcode(cs)).ChecksumSize() == 4 && f.Header.size - 16 >= 8 && f.Header.size - 16 >= 8 + be16(old(f.Payload), 6) ==>
 //@             cs(cs) == csupd(old(cs(cs)), old(f.Payload[8:8+be16(f.Payload, 6)])) && be32(f.Payload, 2) == cssum(cs(cs))
 //@   property C02 C08
+
+// Get's answer is the membership of the id in the item map (live or tombstoned)
+// at the time of the lookup.
+//@ ghostfield lookupHit
+//@ func (r *relayItems) Get(id uint32, stopTimeout bool) (item relayItem, stopped bool, found bool)
+//@   nosafety
+//@   modifies allbut Frame, own, lazyCallReq, Relayer, bytes
+//@   ensures found == has(r.items, id)
+// ghost: the table remembers the answer of its most recent lookup
+//@   defines lookupHit(r) == ite(found, 1, 0)
+//@   ensures found ==> item == r.items[id]
+//@   ensures !stopTimeout ==> !stopped
+//@   property C03 C09
+
+// A call request whose id is still present in the outbound item map -- live or
+// tombstoned: the tombstone's deferred Delete is keyed by the same id -- is
+// refused before a destination is chosen.
+//@ func (r *Relayer) getDestination(f *lazyCallReq, call RelayCall) (conn *Connection, ok bool, err error)
+//@   requires LCR(f) && own(f.Frame) == 1
+//@   nosafety
+//@   modifies all
+//@   label id-already-present-is-refused
+//@   atcall Destination !has(r.outbound.items, f.Header.ID)
+//@   ensures ok ==> err == nil
+//@   property C03
